@@ -8,9 +8,11 @@ import (
 	"os/exec"
 	"path/filepath"
 	"reflect"
+	"runtime"
 	"sort"
 	"strings"
 	"testing"
+	"time"
 
 	"pault.ag/go/debian/deb"
 	"pgregory.net/rapid"
@@ -40,7 +42,7 @@ func loadAndCheck(raw []byte, m DebModel, members []ArMember, viaFile bool, inde
 	var err error
 	pathname := "some/dir/pkg_1_amd64.deb"
 	if viaFile {
-		f, ferr := os.CreateTemp("", "c14-*.deb")
+		f, ferr := os.CreateTemp(workDir(), "c14-*.deb")
 		if ferr != nil {
 			return nil, errf("HARNESS: %v", ferr)
 		}
@@ -162,6 +164,67 @@ func loadAndCheck(raw []byte, m DebModel, members []ArMember, viaFile bool, inde
 	return ld, nil
 }
 
+// openPayload is what a caller interested in the files only writes: LoadFile, keep the payload
+// stream and the close function, let go of the handle.
+//
+//go:noinline
+func openPayload(pathname string) (*tar.Reader, deb.Closer, error) {
+	d, closer, err := deb.LoadFile(pathname)
+	if err != nil {
+		return nil, nil, err
+	}
+	return d.Data, closer, nil
+}
+
+// payloadOutlivesHandle: the payload stream and the close function are all that is kept of a
+// LoadFile; the garbage collector runs (twice, with time for finalizers) before the stream is read.
+func payloadOutlivesHandle(raw []byte, m DebModel) error {
+	f, ferr := os.CreateTemp(workDir(), "c14p-*.deb")
+	if ferr != nil {
+		return errf("HARNESS: %v", ferr)
+	}
+	defer os.Remove(f.Name())
+	f.Write(raw)
+	f.Close()
+	data, closer, err := openPayload(f.Name())
+	if err != nil {
+		return errf("LoadFile of a well-formed package failed: %v", err)
+	}
+	defer closer()
+	for k := 0; k < 2; k++ {
+		runtime.GC()
+		time.Sleep(2 * time.Millisecond)
+	}
+	n := 0
+	for {
+		h, err := data.Next()
+		if err == io.EOF {
+			break
+		}
+		if err != nil {
+			return errf("the payload stream of LoadFile, read after the *Deb itself was dropped and the garbage collector had run: %v", err)
+		}
+		if n >= len(m.DataFiles) {
+			return errf("payload stream lists more entries than were packaged")
+		}
+		w := m.DataFiles[n]
+		var b []byte
+		if tarTypeName(h.Typeflag) == "reg" {
+			if b, err = io.ReadAll(data); err != nil {
+				return errf("the payload stream of LoadFile, read after the *Deb itself was dropped and the garbage collector had run: reading %s: %v", h.Name, err)
+			}
+		}
+		if h.Name != w.Name || !bytes.Equal(b, w.Content) {
+			return errf("payload entry %d read after the *Deb was dropped = (%s, %d bytes), packaged (%s, %d bytes)", n, h.Name, len(b), w.Name, len(w.Content))
+		}
+		n++
+	}
+	if n != len(m.DataFiles) {
+		return errf("payload stream read after the *Deb was dropped lists %d entries, %d were packaged", n, len(m.DataFiles))
+	}
+	return nil
+}
+
 type DebCase struct {
 	M       DebModel `json:"m"`
 	ViaFile bool     `json:"viaFile"`
@@ -222,6 +285,11 @@ func checkDebCase(c DebCase, r *Recorder) error {
 	if err != nil {
 		return err
 	}
+	if c.ViaFile {
+		if err := payloadOutlivesHandle(raw, c.M); err != nil {
+			return err
+		}
+	}
 	for k := 0; k < 2; k++ {
 		again, err := loadAndCheck(raw, c.M, members, false)
 		if err != nil {
@@ -244,7 +312,7 @@ func tarNames(fs []TarFile) []string {
 
 var specC14Load = Register(&Spec[DebCase]{
 	Prop: "C14", Name: "load",
-	Rule: "format-2.0 .deb packages built by an independent builder from a model: control paragraph (C10 DEBIAN/control generator, incl. X- fields), control.tar with optional './' entry, './control' or 'control' at any position among md5sums/conffiles/postinst (containing look-alike 'Package:' text)/control.bak/triggers, data.tar of directories, regular files (0..4 KiB, sizes around the 512-byte tar block) and symlinks, control and data codec each from {none, gz, xz, bz2, lzma, zst} (xz members written with a 1, 8 or 16 MiB dictionary - 64 MiB too in the thorough tier), extra '_*' members after or between, optional GNU '/' name terminators; loaded with Load or LoadFile and twice more. Oracle: typed control fields, unknown fields, SourceName, ControlExt/DataExt, Path, ArContent keys and bytes (in a third of the cases read through the indexed readers themselves, before the payload is touched), and the exact (name, type, content, link) sequence of the data tar equal the model; repeated loads agree. Non-trivial: control.tar has >= 2 files with control not first, or the two codecs differ; distinct by archive bytes.",
+	Rule:  "format-2.0 .deb packages built by an independent builder from a model: control paragraph (C10 DEBIAN/control generator, incl. X- fields), control.tar with optional './' entry, './control' or 'control' at any position among md5sums/conffiles/postinst (containing look-alike 'Package:' text)/control.bak/triggers, data.tar of directories, regular files (0..4 KiB, sizes around the 512-byte tar block) and symlinks, control and data codec each from {none, gz, xz, bz2, lzma, zst} (xz members written with a 1, 8 or 16 MiB dictionary - 64 MiB too in the thorough tier), extra '_*' members after or between, optional GNU '/' name terminators; loaded with Load or LoadFile and twice more, and (LoadFile cases) once more keeping nothing but Deb.Data and the close function while the garbage collector runs before the payload is read. Oracle: typed control fields, unknown fields, SourceName, ControlExt/DataExt, Path, ArContent keys and bytes (in a third of the cases read through the indexed readers themselves, before the payload is touched), and the exact (name, type, content, link) sequence of the data tar equal the model; repeated loads agree. Non-trivial: control.tar has >= 2 files with control not first, or the two codecs differ; distinct by archive bytes.",
 	Check: checkDebCase,
 })
 
@@ -277,7 +345,7 @@ func TestC14_CodecPairsExh(t *testing.T) {
 
 var specC14Pairs = Register(&Spec[DebCase]{
 	Prop: "C14", Name: "codecpairs",
-	Rule: "for each of a few generated package models, ALL 36 (control codec, data codec) pairs over {none, gz, xz, bz2, lzma, zst} are built and loaded; oracle and non-trivial rule as C14/load (exhaustive over the codec pairs, per model).",
+	Rule:  "for each of a few generated package models, ALL 36 (control codec, data codec) pairs over {none, gz, xz, bz2, lzma, zst} are built and loaded; oracle and non-trivial rule as C14/load (exhaustive over the codec pairs, per model).",
 	Check: checkDebCase,
 })
 
@@ -528,7 +596,7 @@ func TestC14_DpkgDebExt(t *testing.T) {
 	zs := []string{"gzip", "xz", "zstd", "none"}
 	specC14Dpkg.Enumerate(t, false, func(r *Recorder, yield func(DpkgDebCase) bool) {
 		for i, m := range models {
-			dir, err := os.MkdirTemp("", "c14dpkg")
+			dir, err := os.MkdirTemp(workDir(), "c14dpkg")
 			if err != nil {
 				return
 			}
